@@ -1233,9 +1233,11 @@ var (
 		"100.64.0.5", "169.253.1.1",
 	}
 	zzG01PubPool6 = []string{"2606:4700::1111", "fc00::1", "2001:db9::1"}
-	// Addresses under and next to the DNS64 prefixes.
+	// Addresses under and next to the DNS64 prefixes.  None of them is the
+	// mapping of an address of zzG01Pool4: a synthesised answer must be
+	// distinguishable from the upstream's own (excluded) one.
 	zzG01Pool64 = []string{
-		"64:ff9b::102:304", "64:ff9b::808:808", "2001:67c:27e4:1064::102:305", "2001:67c:27e4:1064::a00:1",
+		"64:ff9b::102:304", "64:ff9b::909:909", "2001:67c:27e4:1064::102:305", "2001:67c:27e4:1064::a00:1",
 		"2001:67c:27e4:642::c0a8:1", "64:ff9b:1::1", "2001:67c:27e4:1065::1", "2001:db8::77", "2606:4700::6810:84e5",
 	}
 	zzG01Pool4 = []string{"203.0.113.77", "198.51.100.4", "8.8.8.8"}
